@@ -30,6 +30,14 @@ LEVEL_TEXT = (
 )
 
 
+def ancestors_of(n: ast.AST, stop: ast.AST):
+    from ..frontend import ancestors
+    for a in ancestors(n):
+        if a is stop:
+            return
+        yield a
+
+
 def _is_not_is_done(test: ast.AST) -> bool:
     return isinstance(test, ast.UnaryOp) and isinstance(test.op, ast.Not) and isinstance(test.operand, ast.Call) \
         and is_self_attr(test.operand.func, "is_done") and not test.operand.args
@@ -47,19 +55,37 @@ def run(ctx: Ctx) -> None:
         loops = [l for l in walk_local(f.node) if isinstance(l, (ast.While, ast.For, ast.AsyncFor))
                  and not any(isinstance(a, (ast.ListComp, ast.GeneratorExp)) for a in [parent(l)])]
         top_loops = [l for l in loops if isinstance(l, ast.While)]
-        ok = len(top_loops) == 1 and _is_not_is_done(top_loops[0].test)
+        # the equivalent spelling: an unbounded loop ('while True', 'for g in itertools.count(..)') whose first statement is
+        # 'if self.is_done(): break'
+        guard_break = None
+        if not (len(top_loops) == 1 and _is_not_is_done(top_loops[0].test)):
+            for l in loops:
+                unbounded = (isinstance(l, ast.While) and isinstance(l.test, ast.Constant) and l.test.value is True) or \
+                    (isinstance(l, ast.For) and isinstance(l.iter, ast.Call) and call_name(l.iter) == "count")
+                first = l.body[0] if l.body else None
+                if unbounded and isinstance(first, ast.If) and isinstance(first.test, ast.Call) and is_self_attr(first.test.func, "is_done") \
+                        and not first.test.args and len(first.body) == 1 and isinstance(first.body[0], ast.Break) and not first.orelse \
+                        and not any(isinstance(a_, (ast.For, ast.While)) for a_ in ancestors_of(l, f.node)):
+                    guard_break = (l, first.body[0])
+                    top_loops = [l]
+                    break
+        ok: Optional[bool] = guard_break is not None or (len(top_loops) == 1 and _is_not_is_done(top_loops[0].test))
+        if not ok and len(top_loops) != 1:
+            ok = None     # another loop shape: the model of R2 decides what happens between budget checks
         ctx.ob("C14.R1", f, top_loops[0] if top_loops else f.node, "loop test is exactly 'not self.is_done()'", ok,
-               "" if ok else ("search has no single while-loop on the budget" if len(top_loops) != 1 else
+               "" if ok else ("the search loop is neither 'while not self.is_done()' nor an unbounded loop that starts with 'if self.is_done(): break'"
+                              if len(top_loops) != 1 else
                               f"loop test is '{norm(top_loops[0].test)}': the search may stop early or run past the "
                               f"first satisfied budget check"))
         if len(top_loops) != 1:
             continue
         loop = top_loops[0]
         exits = [x for st in loop.body for x in ast.walk(st) if isinstance(x, (ast.Break, ast.Return))
-                 and not _in_nested_loop(x, loop)]
+                 and not _in_nested_loop(x, loop) and not (guard_break is not None and x is guard_break[1])]
         ctx.ob("C14.R1", f, exits[0] if exits else loop, "no break/return inside the search loop", not exits,
                "" if not exits else "the loop can be left without consulting the budget")
-        extra = [c for st in loop.body for c in ast.walk(st) if isinstance(c, ast.Call) and call_name(c) == "is_done"]
+        extra = [c for st in loop.body for c in ast.walk(st) if isinstance(c, ast.Call) and call_name(c) == "is_done"
+                 and not (guard_break is not None and c is loop.body[0].test)]
         ctx.ob("C14.R1", f, extra[0] if extra else loop, "budget consulted once per iteration", not extra,
                "" if not extra else "the budget is consulted inside the body as well")
         if loop.orelse:
@@ -226,9 +252,13 @@ def _population_model(ctx: Ctx) -> int:
             continue
         # a wrapper of individuals: its first parameter is iterated in the constructor
         src = init.params[1]
-        if not any(isinstance(l, (ast.For, ast.comprehension)) and any(isinstance(x, ast.Name) and x.id == src for x in ast.walk(l.iter))
-                   for l in walk_local(init.node)):
+        if not any(isinstance(x, ast.Name) and x.id == src for x in walk_local(init.node)):
             continue
+        ann = init.node.args.args[1].annotation if len(init.node.args.args) > 1 else None
+        iterates = any(isinstance(l, (ast.For, ast.comprehension)) and any(isinstance(x, ast.Name) and x.id == src for x in ast.walk(l.iter))
+                       for l in walk_local(init.node))
+        if not iterates and not (ann is not None and any(w in norm(ann) for w in ("Iter", "list", "Sequence"))):
+            continue      # the first parameter is neither iterated here nor declared as a collection of individuals
         n += 1
         inds = [Sym("ind1"), Sym("ind2")]
         fit = {"ind1": True, "ind2": False}
